@@ -533,6 +533,7 @@ pub fn generate(seed: u64, thorough: bool, emit: &mut dyn FnMut(String)) {
     }
     generate_hardening(seed, thorough, emit);
     generate_round3(seed, thorough, emit);
+    generate_round4(seed, thorough, emit);
 }
 
 // ---------------------------------------------------------------- hardening families (scale, size, ties, rare paths)
@@ -1068,5 +1069,89 @@ fn generate_round3(seed: u64, thorough: bool, emit: &mut dyn FnMut(String)) {
         let p = as_kind_named(&g, simple, &mut rng);
         let init = *rng.pick(&[lo, hi, lo, ulps(lo, width / 2)]);
         emit_req(emit, &p, lo, init, hi, *rng.pick(&[1e-12, 1e-9, 1e-3, 1.0]), *rng.pick(&[2000usize, 3000]), false);
+    }
+}
+
+// ---------------------------------------------------------------- round-4 family: one end a few subnormal steps from a root at 0
+
+/// (8) A ROOT AT 0, ONE BRACKET END A FEW UNITS OF 2^-1074 AWAY FROM IT, THE OTHER END ORDINARY: g at the near end is one of
+/// the smallest subnormals (non-zero), g at the first midpoint is an ordinary number.  The sign test compares a value at
+/// the very bottom of the range with one ~2^1070 times larger: `f_lower / f_curr`, `f_lower * (1 / f_curr)`,
+/// `f_curr * f_lower` without the sign extraction, `f_lower.abs() < eps`, a "relative sign" `f_lower / scale` ... all turn the
+/// tiny value into +-0 and lose the sign change, although g changes sign over the bracket and the root 0 lies inside:
+/// the statement's converse clause wants a value (tools/props/c06.py judges it: D(X) * tol/100 * X below half the gate,
+/// budget >= 2000).  The D39 corpus line is the single case g = x on [-2^-1074, 1]; here the other end runs over
+/// 2^-40..2^10 (and arbitrary doubles), the near end over +-1..60 units (of 2^-1074, sometimes of 2^-1070..2^-1060 or the
+/// smallest normals), on either side, g over amp * x * prod (1 - x / q_j) with slopes 2^-6..2^9, x^3 + x, x (x - c), both
+/// modes, both polynomial types.
+fn generate_round4(seed: u64, thorough: bool, emit: &mut dyn FnMut(String)) {
+    let mut rng = Rng::new(seed ^ 0xC06_0004_F00D);
+    let n = if thorough { 9000 } else { 420 };
+    for i in 0..n {
+        let simple = rng.chance(1, 2);
+        let extrema = rng.chance(1, 4);
+        // the near end: k units of 2^e
+        let e = match i % 8 {
+            0 => -1074 + rng.range(1, 14) as i32,
+            1 => -1022 - rng.range(0, 3) as i32,
+            _ => -1074,
+        };
+        let k = match rng.below(4) {
+            0 => 1,
+            1 => rng.range(1, 4),
+            _ => rng.range(1, 60),
+        } as f64;
+        let near = k * pow2(e);
+        // the far end
+        let far = match rng.below(6) {
+            0 => *rng.pick(&[1.0, 8.0, 2.0, 4.0, 0.5, 16.0, 64.0, 1024.0, 3.0, 40.0, 10.0]),
+            1 => pow2(rng.range(-40, 10) as i32),
+            2 => rng.uniform(0.001, 50.0),
+            3 => rng.range(1, 999) as f64 / 8.0,
+            _ => rng.uniform(0.5, 12.0),
+        };
+        // which side of 0 the near end lies on
+        let (lo, hi) = if rng.chance(2, 3) { (-near, far) } else { (-far, near) };
+        let x_max = far;
+        // the target: a simple root at 0, the other roots outside [-2 far, 2 far]
+        let amp = match rng.below(5) {
+            0 => 1.0,
+            1 => -1.0,
+            _ => pow2(rng.range(-6, 9) as i32) * if rng.chance(1, 2) { 1.0 } else { -1.0 },
+        };
+        let g: Vec<f64> = match rng.below(6) {
+            0 => vec![0.0, amp],
+            1 => vec![0.0, amp, 0.0, amp],                               // amp (x^3 + x)
+            2 => {
+                let c = far * rng.uniform(2.5, 9.0) * if rng.chance(1, 2) { 1.0 } else { -1.0 };
+                vec![0.0, -amp * c / far.max(1.0), amp / far.max(1.0)]    // ~ amp x (x - c) / max(far, 1)
+            }
+            _ => {
+                let qs: Vec<f64> = (0..1 + rng.below(3)).map(|_| x_max.max(1.0) * rng.uniform(3.0, 200.0) * if rng.chance(1, 2) { 1.0 } else { -1.0 }).collect();
+                let mut cs = near_linear(amp, 0.0, &qs);
+                cs[0] = 0.0; // (-amp * 0 is a signed zero)
+                cs
+            }
+        };
+        let mut g = g;
+        // moderately scaled at the scale of the bracket (the oracle wants D(max(X, 1)) <= 1000)
+        moderate(&mut g, x_max.max(1.0), 900.0);
+        // tolerance the completeness clause accepts for this slope and bracket: D(X) * tol * X <= 5e-3
+        let reach = deriv_bound(&g, x_max) * x_max;
+        let fit: Vec<f64> = [1e-12, 1e-10, 1e-9, 1e-8, 1e-6, 1e-5, 1e-4].iter().copied().filter(|t| t * reach <= 4e-3).collect();
+        let tol = if !fit.is_empty() && rng.chance(9, 10) { *rng.pick(&fit) } else { pick_tol(&mut rng, false) };
+        let cs = if extrema { antiderivative_plain(&g, rng.range(-3, 3) as f64) } else { g };
+        let p = as_kind_named(&cs, simple, &mut rng);
+        let init = match rng.below(8) {
+            0 => lo,
+            1 => hi,
+            2 => 0.0,
+            3 => next_up(lo),
+            4 => next_down(hi),
+            5 => lo + (hi - lo) * rng.unit(),
+            _ => lo / 2.0 + hi / 2.0,
+        };
+        let itermax = *rng.pick(&[2000usize, 2500, 3000, 5000]);
+        emit_req(emit, &p, lo, init, hi, tol, itermax, extrema);
     }
 }
